@@ -101,7 +101,7 @@ def run_case(c):
     aff = data * np.array([2.0, 0.5, 3.0])[None, :] + np.array([1.0, -4.0, 0.25])[None, :]
     put("all_aff", lambda: enc.arr(CouplingAnalysis(aff, silence_level=3).cross_correlation(tau_max=tm, lag_mode="all")))
     # ... and a large common offset (the statistics are translation invariant; the data stay exact)
-    big = np.array(c["data"], dtype=float) + 1048576.0
+    big = np.array(c["data"], dtype=float) + 134217728.0
     put("all_big", lambda: enc.arr(CouplingAnalysis(big.copy(), silence_level=3).cross_correlation(tau_max=tm, lag_mode="all")))
     put("pure0_big", lambda: enc.arr(CouplingAnalysisPurePython(big.copy(), silence_level=3)
                                      .cross_correlation(tau_max=0, lag_mode="all")[0]))
